@@ -43,6 +43,11 @@ PadValid(p) == IF p.present
 (* ---- a case ---- *)
 (* s.nch, s.cal, s.anchor \in {"none","pub","auth"}, s.pads (set of padding forms used by metadata links),        *)
 (* s.viol (set of [c, at]), s.doc \in {"absent","equal","digest","alg"}, s.level \in {"none","ok","over","huge"}  *)
+(* How the document hash and level reach the verifier is NOT part of the state: the verdict is the same through every entry point --  *)
+(* KSI_SignatureVerifier_verify with a context, KSI_Signature_verifyWithPolicy with hash and level as arguments or inside a caller's   *)
+(* context, KSI_Signature_parseWithPolicy with a caller's context (the last three only tell OK from not-OK).  C02 replays every       *)
+(* document / level context through all of EntryPoints.                                                                              *)
+EntryPoints == {"verifier", "withPolicyArgs", "withPolicyCtx", "parseWithPolicy"}
 Violated(s) == {v.c : v \in s.viol} \cup (IF \E p \in s.pads : ~PadValid(p) THEN {"padding"} ELSE {})
                \cup (IF s.doc = "digest" THEN {"docHash"} ELSE {}) \cup (IF s.doc = "alg" THEN {"docAlg"} ELSE {})
                \cup (IF s.level = "over" THEN {"docLevel"} ELSE {})
